@@ -16,12 +16,15 @@ INF = float("inf")
 
 # ----------------------------------------------------------------------------- codes
 
+CODE_BASE = 1 << 60      # counters up to 2^60 (class 22: counters beyond 2^24 / 2^53)
+
+
 def st_code(steps: int, pc: int, cont: bool) -> int:
-    return (int(steps) * 65536 + int(pc)) * 2 + (1 if cont else 0)
+    return (int(steps) * CODE_BASE + int(pc)) * 2 + (1 if cont else 0)
 
 
 def st_decode(code: int):
-    return code // 2 // 65536, (code // 2) % 65536, bool(code % 2)
+    return code // 2 // CODE_BASE, (code // 2) % CODE_BASE, bool(code % 2)
 
 
 def obs_code(nodec: bool, below: bool = False, rej: bool = False) -> int:
@@ -178,6 +181,33 @@ def make_fake_optimizer_class():
     FakeOpt.__module__, FakeOpt.__qualname__ = __name__, "FakeOpt"    # picklable (copies stream)
     globals()["FakeOpt"] = FakeOpt
     return FakeOpt
+
+
+# ----------------------------------------------------------------------------- user subclasses (class 21)
+
+_SUB = {}
+
+
+def controller_class(kind: str, klass: str):
+    """the shipped class, a trivial user subclass, or a user subclass that overrides step() and calls super()"""
+    import pypose
+    base = pypose.utils.ReduceToBason if kind == "rtb" else pypose.optim.scheduler.StopOnPlateau
+    if klass in (None, "lib"):
+        return base
+    key = (kind, klass)
+    if key not in _SUB:
+        name = f"User{kind.title()}{klass.title().replace('_', '')}"
+        if klass == "sub":
+            cls = type(name, (base,), {"user_tag": "mine"})
+        else:
+            def step(self, loss, _b=base):
+                self.seen = getattr(self, "seen", 0) + 1
+                return _b.step(self, loss)
+            cls = type(name, (base,), {"step": step})
+        cls.__module__, cls.__qualname__ = __name__, name
+        globals()[name] = cls
+        _SUB[key] = cls
+    return _SUB[key]
 
 
 # ----------------------------------------------------------------------------- snapshots
